@@ -5,11 +5,12 @@ Require Import ExtrOcamlBasic.
 From MMD.lib Require Import Bytes.
 From MMD.lib Require Import Lemon.
 From MMD.gen Require Import ParserTables.
-From MMD.model Require Import DStringModel DStringSpec PoolModel.
+From MMD.model Require Import DStringModel DStringSpec PoolModel TreeCheck.
 Extraction Language OCaml.
 Extraction "mmdmodel.ml"
   Bytes.find_sub
   DStringModel.ds_new DStringModel.step DStringModel.content
   DStringSpec.sp_step DStringSpec.op_ok
   PoolModel.pinit PoolModel.pstep PoolModel.well_bracketed
-  Lemon.parse_document ParserTables.parser_tables ParserTables.line_kinds.
+  Lemon.parse_document ParserTables.parser_tables ParserTables.line_kinds
+  TreeCheck.wf_tree.
